@@ -718,6 +718,50 @@ def lean_shared_state(items):
             "def sharedMutableState : List String := [%s]\n"
             "end WV.Gen.Shared\n" % ", ".join(lean_str(x) for x in items))
 
+
+# ---------------------------------------------------------------------------
+# state-dependent assertions of the thirteen mailbox-client modules (C14: "no assertion fires"): every
+# `assert` whose test is not a plain isinstance() type check, as "file:Class.function: test".  The model
+# mirrors each of them (or argues why it cannot fire); the list is pinned in WV.Props.ClientSkel.
+
+_CLIENT_MODULES = ["_boss", "_nameplate", "_mailbox", "_terminator", "_code", "_allocator", "_lister", "_input",
+                   "_key", "_order", "_receive", "_send", "_rendezvous"]
+
+
+def extract_asserts():
+    import importlib
+    out = []
+    ntype = 0
+    for mn in _CLIENT_MODULES:
+        mod = importlib.import_module("wormhole." + mn)
+        tree = ast.parse(open(inspect.getsourcefile(mod), encoding="utf-8").read())
+
+        def walk(node, ctx):
+            nonlocal ntype
+            for ch in ast.iter_child_nodes(node):
+                if isinstance(ch, ast.ClassDef):
+                    walk(ch, ctx + [ch.name])
+                elif isinstance(ch, (ast.FunctionDef, ast.AsyncFunctionDef)):
+                    walk(ch, ctx + [ch.name])
+                elif isinstance(ch, ast.Assert):
+                    t = ch.test
+                    if isinstance(t, ast.Call) and getattr(t.func, "id", "") == "isinstance":
+                        ntype += 1
+                    else:
+                        out.append("%s.py:%s: %s" % (mn, ".".join(ctx), ast.unparse(t)))
+                    walk(ch, ctx)
+                else:
+                    walk(ch, ctx)
+        walk(tree, [])
+    return out, ntype
+
+
+def lean_asserts(items, ntype):
+    return ("namespace WV.Gen.Asserts\n"
+            "def stateAsserts : List String := [\n  %s]\n"
+            "def typeAsserts : Nat := %d\n"
+            "end WV.Gen.Asserts\n" % (",\n  ".join(lean_str(x) for x in items), ntype))
+
 def lean_flags(flags):
     L = ["namespace WV.Gen.Flags"]
     for k in sorted(flags):
@@ -1149,6 +1193,9 @@ def main():
     fl = extract_flags()
     if write_if_changed(os.path.join(GEN, "Flags.lean"), hdr + lean_flags(fl)):
         changed.append("Flags")
+    _as, _nt = extract_asserts()
+    if write_if_changed(os.path.join(GEN, "Asserts.lean"), hdr + lean_asserts(_as, _nt)):
+        changed.append("Asserts")
     if write_if_changed(os.path.join(GEN, "Shared.lean"), hdr + lean_shared_state(extract_shared_state())):
         changed.append("Shared")
     if write_if_changed(os.path.join(GEN, "Recv.lean"), hdr + extract_recv()):
